@@ -384,7 +384,8 @@ class Func:
                 if s['lhs']['p'] and s['lhs']['l'] in cand:
                     bad.add(s['lhs']['l'])
                 rv = s['rv']
-                if rv['k'] in ('ref', 'rawptr') and rv.get('place', {}).get('l') in cand:
+                # a shared borrow cannot change a plain scalar; only `&mut` / raw pointers disqualify
+                if rv['k'] in ('ref', 'rawptr') and rv.get('place', {}).get('l') in cand and (rv.get('mut') or rv['k'] == 'rawptr'):
                     bad.add(rv['place']['l'])
             t = blk['term']
             if t['k'] == 'call' and t['dest']['p'] and t['dest']['l'] in cand:
@@ -439,6 +440,77 @@ class Func:
                     return int(val)
         return v
 
+    def _env_resolve(self, envd, pl):
+        """the stable scalar local a place denotes when it is reached through known shared references
+        (`*r`, `(*env).0` of an inlined closure, ...); the local itself for a bare local; None otherwise"""
+        cur = pl['l']
+        isref = False       # cur is the referent (False) or we still hold a reference value to deref
+        ps = list(pl['p'])
+        i = 0
+        while i < len(ps):
+            p_ = ps[i]
+            if p_['k'] == 'deref':
+                if ('RF', cur) in envd:
+                    cur = envd[('RF', cur)]
+                else:
+                    return None
+            elif p_['k'] == 'field':
+                # field holding a reference: must be followed by a deref
+                if ('FR', cur, p_.get('i')) in envd and i + 1 < len(ps) and ps[i + 1]['k'] == 'deref':
+                    cur = envd[('FR', cur, p_.get('i'))]
+                    i += 1
+                else:
+                    return None
+            else:
+                return None
+            i += 1
+        return cur
+
+    def promoted_option(self, op):
+        """(vidx, payload) of a promoted `&None` / `&Some(<integer>)` constant, read from the promoted body"""
+        if op.get('k') != 'const' or not op.get('promoted'):
+            return None
+        m = re.search(r'promoted\[(\d+)\]$', op.get('text') or '')
+        proms = self.j.get('promoted') or []
+        if not m or int(m.group(1)) >= len(proms):
+            return None
+        vals = {}
+        for s_ in proms[int(m.group(1))]:
+            if s_.get('k') != 'assign' or s_['lhs']['p']:
+                continue
+            rv = s_['rv']
+            if rv['k'] == 'agg' and rv.get('adt') == 'std::option::Option':
+                if rv.get('vidx') == 0:
+                    vals[s_['lhs']['l']] = (0, None)
+                elif len(rv['ops']) == 1 and const_val(rv['ops'][0]) is not None:
+                    vals[s_['lhs']['l']] = (1, const_val(rv['ops'][0]))
+            elif rv['k'] == 'ref' and not rv['place']['p'] and rv['place']['l'] in vals and s_['lhs']['l'] == 0:
+                return vals[rv['place']['l']]
+        return None
+
+    def _opt_value(self, envd, op):
+        """(vidx, payload) of the Option<integer> a reference operand points to: a local whose variant and payload
+        the environment knows, or a promoted constant"""
+        if 'l' not in op or op['p']:
+            return self.promoted_option(op)
+        x = op['l']
+        if ('RF', x) in envd:
+            tgt = envd[('RF', x)]
+            d = envd.get(('D', tgt))
+            if d == 0:
+                return (0, None)
+            if d == 1 and envd.get(('P', tgt), (None,))[0] == 1:
+                return (1, envd[('P', tgt)][1])
+            return None
+        d = self.single_def(x)
+        if d and d[1] == 'assign':
+            rv = d[2]
+            if rv['k'] == 'use':
+                return self.promoted_option(rv['op']) if rv['op'].get('k') == 'const' else (self._opt_value(envd, rv['op']) if not rv['op'].get('p') else None)
+            if rv['k'] == 'ref' and not rv.get('mut') and len(rv['place']['p']) == 1 and rv['place']['p'][0]['k'] == 'deref':
+                return self._opt_value(envd, {'l': rv['place']['l'], 'p': []})
+        return None
+
     def _env_operand(self, envd, op):
         """value of an operand under the environment (constants, known scalar locals, the payload of an enum local
         whose payload value is known); None when unknown"""
@@ -450,6 +522,10 @@ class Func:
             l = op['l']
             return envd.get(l, envd.get(envd.get(('A', l), l)))
         ps = op['p']
+        if any(p_['k'] == 'deref' for p_ in ps):
+            tgt = self._env_resolve(envd, op)
+            if tgt is not None:
+                return envd.get(tgt, envd.get(envd.get(('A', tgt), tgt)))
         if len(ps) == 1 and ps[0]['k'] == 'field' and ('F', op['l'], ps[0].get('i')) in envd:
             return envd[('F', op['l'], ps[0].get('i'))]
         if len(ps) == 2 and ps[0]['k'] == 'downcast' and ps[1]['k'] == 'field' and ps[1].get('i') == 0:
@@ -485,8 +561,27 @@ class Func:
             for k in [k for k, v in envd.items() if isinstance(k, tuple) and v == l]:
                 envd.pop(k, None)
         self._forget_enum(envd, x)
-        for k in [k for k in envd if isinstance(k, tuple) and k[0] == 'F' and k[1] == x]:
+        for k in [k for k in envd if isinstance(k, tuple) and k[0] in ('F', 'FR', 'RF') and k[1] == x]:
             envd.pop(k, None)
+        # shared references to tracked scalars (a closure capturing a flag by reference, then inlined)
+        if rv is not None:
+            if rv['k'] == 'ref' and not rv.get('mut') and 'l' in rv['place']:
+                tgt = self._env_resolve(envd, rv['place'])
+                if tgt is not None:
+                    envd[('RF', x)] = tgt
+            elif rv['k'] == 'use' and 'l' in rv['op'] and not rv['op']['p'] and ('RF', rv['op']['l']) in envd:
+                envd[('RF', x)] = envd[('RF', rv['op']['l'])]
+            elif rv['k'] == 'use' and 'l' in rv['op'] and not rv['op']['p']:
+                # a moved/copied aggregate keeps the references its fields hold (closure passed by value)
+                for k in [k for k in envd if isinstance(k, tuple) and k[0] == 'FR' and k[1] == rv['op']['l']]:
+                    envd[('FR', x, k[2])] = envd[k]
+            elif rv['k'] == 'use' and 'l' in rv['op'] and len(rv['op']['p']) == 1 and rv['op']['p'][0]['k'] == 'field' \
+                    and ('FR', rv['op']['l'], rv['op']['p'][0].get('i')) in envd:
+                envd[('RF', x)] = envd[('FR', rv['op']['l'], rv['op']['p'][0].get('i'))]
+            elif rv['k'] == 'agg':
+                for i_, o_ in enumerate(rv.get('ops', [])):
+                    if 'l' in o_ and not o_['p'] and ('RF', o_['l']) in envd:
+                        envd[('FR', x, i_)] = envd[('RF', o_['l'])]
         # fields of a freshly built tuple/struct whose values are known (`match (flag, x) { (true, _) => ..`)
         if rv is not None and rv['k'] == 'agg' and rv.get('ak') in ('tuple', 'adt') and x in self._frozen_enums() and rv.get('vidx') in (None, 0):
             for i_, o_ in enumerate(rv.get('ops', [])):
@@ -553,6 +648,19 @@ class Func:
                 if cal == 'std::ops::Try::branch' and 'std::option::Option' in (t['args'][0].get('ty') or ''):
                     dv = 1 - dv  # None(0) -> Break(1), Some(1) -> Continue(0)
                 e2[('D', t['dest']['l'])] = dv
+            # the early-return value of `?`: always the failure variant (Err for a Result, None for an Option)
+            if cal == 'std::ops::FromResidual::from_residual' and t['dest']['l'] in self._frozen_enums():
+                dty = t['dest'].get('ty') or ''
+                if dty.startswith('std::result::Result<'):
+                    e2[('D', t['dest']['l'])] = 1
+                elif dty.startswith('std::option::Option<'):
+                    e2[('D', t['dest']['l'])] = 0
+            # `errno == Some(libc::EINTR)` on an Option<integer>: decided when both sides are known
+            if cal in ('std::cmp::PartialEq::eq', 'std::cmp::PartialEq::ne') and len(t['args']) == 2 and t['dest']['l'] in stable \
+                    and re.match(r'^<std::option::Option<[iu](8|16|32|64|size)> as ', t.get('callee_full') or ''):
+                a, b = self._opt_value(envd, t['args'][0]), self._opt_value(envd, t['args'][1])
+                if a is not None and b is not None:
+                    e2[t['dest']['l']] = int((a == b) == (cal.endswith('::eq')))
             dt = self.DISCR_TESTS.get(t.get('callee') or '')
             if dt and t['args'] and 'l' in t['args'][0] and not t['args'][0]['p']:
                 d = self.single_def(t['args'][0]['l'])
@@ -622,7 +730,7 @@ class Func:
             envd = dict(nxt[0]) if nxt else {}
         return envd
 
-    def forward_paths_hit(self, starts, targets, blockers=(), stop_at_targets=True, track_bools=True, arm_at=None, env0=None):
+    def forward_paths_hit(self, starts, targets, blockers=(), stop_at_targets=True, track_bools=True, arm_at=None, env0=None, stop_env=None):
         """Location-level forward search over normal edges.
         Returns the first target location reachable from any start without
         crossing a blocker location (a blocker stops the path *at* it), plus the
@@ -654,6 +762,9 @@ class Func:
             if (bb, i, env) in seen:
                 continue
             seen.add((bb, i, env))
+            # paths on which a caller-given fact holds are not followed further (e.g. "the slot is known to be empty")
+            if stop_env is not None and stop_env(dict(env)):
+                continue
             cands = [x for x in tb.get(bb, []) if x >= i]
             blks = [x for x in bl.get(bb, []) if x >= i]
             first_t = min(cands) if cands else None
@@ -1001,7 +1112,10 @@ class ExprBuilder:
     """Builds expressions for operands of one function, following definitions.
     multi: how to treat locals with several definitions: 'leaf' or 'phi'."""
 
-    def __init__(self, f, multi='leaf', transparent=True, max_depth=40, inline=False, _inline_depth=0):
+    def __init__(self, f, multi='leaf', transparent=True, max_depth=40, inline=False, _inline_depth=0, choose=None):
+        # choose: {local: location of the one definition to follow} — evaluates expressions under the assumption that
+        # a multi-definition local (e.g. a tuple returned from several places) got its value there
+        self.choose = choose or {}
         self.f = f
         self.multi = multi
         self.transparent = transparent
@@ -1011,9 +1125,38 @@ class ExprBuilder:
         self.inline = inline
         self._inline_depth = _inline_depth
 
+    def const_table(self, op):
+        """the aggregate a named table constant of this crate is initialised with (`const T: [(u32, &str); N] = [..]`),
+        as an expression; None for any other constant"""
+        facts = getattr(self.f, 'facts', None)
+        c = facts.consts.get(op.get('def_path') or '') if facts is not None and op.get('def_path') else None
+        if not c or 'init' not in c:
+            return None
+        vals = {}
+
+        def ev(o):
+            if o.get('k') == 'const':
+                return E('const', const_val(o), o.get('def') or o.get('text'), o.get('ty'), None)
+            if 'l' in o and not o['p'] and o['l'] in vals:
+                return vals[o['l']]
+            return E('unknown', 'const-init')
+        for st in c['init']:
+            if st.get('k') != 'assign' or st['lhs']['p']:
+                continue
+            rv = st['rv']
+            if rv['k'] == 'agg':
+                vals[st['lhs']['l']] = E('agg', rv.get('adt') or rv.get('ak'), tuple(rv.get('fields') or ()), tuple(ev(o) for o in rv['ops']))
+            elif rv['k'] == 'use':
+                vals[st['lhs']['l']] = ev(rv['op'])
+        return vals.get(0)
+
     def operand(self, op, depth=0, stack=()):
         if op.get('k') == 'const':
             v = const_val(op)
+            if v is None and op.get('def_path') and not op.get('promoted'):
+                tb = self.const_table(op)
+                if tb is not None:
+                    return tb
             rb = op.get('ref_bytes')
             ri = op.get('ref_inner')
             if ri is not None:
@@ -1036,6 +1179,8 @@ class ExprBuilder:
         if getattr(self, '_reach', None) is None:
             self._reach = f.reachable_blocks(0)
         ds = [x for x in f.defs.get(n, []) if not f.blocks[x[0][0]]['cleanup'] and x[0][0] in self._reach]
+        if n in self.choose:
+            ds = [x for x in ds if x[0] == self.choose[n]]
         pw = f.partial_writes(n)
         if 1 <= n <= f.nargs and not ds:
             return E('arg', n, f.local_name(n))
@@ -1190,6 +1335,30 @@ def simplify_proj(base, projs, ty=None):
             idx = int(name)
         if idx is not None and idx < len(base[3]):
             return simplify_proj(base[3][idx], projs[1:], ty)
+    # `opt?`: the value continuing after Try::branch on an Option is the Some payload of the operand
+    if base[0] == 'call' and base[1] == 'std::ops::Try::branch' and len(projs) >= 2 and projs[:2] == ('@Continue', '.0') \
+            and (base[3] or '').startswith('<std::option::Option') and len(base[2]) == 1:
+        return simplify_proj(base[2][0], ('@Some', '.0') + projs[2:], ty)
+    # downcast of a known aggregate: `Some{x}@Some` is the aggregate itself
+    if base[0] == 'agg' and projs[0].startswith('@') and base[1].endswith('::' + projs[0][1:]):
+        return simplify_proj(base, projs[1:], ty) if projs[1:] else base
+    # `x@Some.0` where x is None on one path and Some{v} on another: reading the Some payload only concerns the
+    # alternatives that built a Some (a value carried through a locally built Option / Result / enum)
+    if base[0] == 'phi' and projs[0].startswith('@'):
+        v = '::' + projs[0][1:]
+        same = [a for a in base[1] if a[0] == 'agg' and a[1].endswith(v)]
+        other = [a for a in base[1] if a[0] == 'agg' and '::' in a[1] and not a[1].endswith(v) and a[1].rsplit('::', 1)[0] == (same[0][1].rsplit('::', 1)[0] if same else None)]
+        # the early-return value of `?` (FromResidual::from_residual) is never the success variant
+        if projs[0] in ('@Some', '@Ok'):
+            other += [a for a in base[1] if a[0] == 'call' and a[1] == 'std::ops::FromResidual::from_residual']
+        unknown = [a for a in base[1] if a not in same and a not in other]
+        if same and not unknown:
+            outs = []
+            for a in same:
+                x = simplify_proj(a, projs, ty)
+                if x not in outs:
+                    outs.append(x)
+            return outs[0] if len(outs) == 1 else E('phi', tuple(outs))
     return E('proj', base, projs, ty)
 
 
@@ -1458,6 +1627,63 @@ def guarded_by_variant(f, ve, loc):
     return f.forward_paths_hit([Loc(mine[1], 0)], [loc], blockers=[here]) is not None or f.edge_dominates(ve['edge'], loc)
 
 
+def correlated_alternatives(f, operands, multi='phi'):
+    """expressions of several operands evaluated together, once per definition of a multi-definition aggregate local
+    they all read from (`let (off, bytes) = if a { (0, x) } else { (1, y) }; copy(dst[off..], bytes)`): a list of
+    tuples of expressions, one per alternative; a single tuple when the operands share no such local"""
+    leaf = ExprBuilder(f, multi='leaf')
+    shared = None
+    for op in operands:
+        ls = {x[1] for x in subexprs(leaf.operand(op)) if x[0] == 'local'}
+        shared = ls if shared is None else (shared & ls)
+    cands = []
+    for l in sorted(shared or ()):
+        ds = [d for d in f.defs.get(l, []) if not f.blocks[d[0][0]]['cleanup']]
+        if len(ds) > 1 and all(d[1] == 'assign' and d[2]['k'] == 'agg' for d in ds) and not f.partial_writes(l):
+            cands.append((l, ds))
+    if not cands:
+        eb = ExprBuilder(f, multi=multi)
+        return [tuple(eb.operand(op) for op in operands)]
+    l, ds = cands[0]
+    out = []
+    for d in ds:
+        eb = ExprBuilder(f, multi=multi, choose={l: d[0]})
+        out.append(tuple(eb.operand(op) for op in operands))
+    return out
+
+
+def table_rows(e):
+    """`for (a, b, ..) in [(..), (..)] { g(a, b) }`: the values an expression read from the loop variable takes, one
+    per row of the array literal; None if e is not of that form"""
+    if not (e[0] == 'proj' and e[1][0] == 'call' and e[1][1] == 'std::iter::Iterator::next' and tuple(e[2][:2]) == ('@Some', '.0')):
+        return None
+    it = e[1][2][0]
+    while it[0] == 'ref':
+        it = it[1]
+    if not (it[0] == 'call' and it[1] == 'std::iter::IntoIterator::into_iter' and it[2] and it[2][0][0] == 'agg' and it[2][0][1] == 'array'):
+        return None
+    out = []
+    for row in it[2][0][3]:
+        x = row
+        for p_ in e[2][2:]:
+            if x[0] == 'agg' and x[1] == 'tuple' and re.match(r'^\.\d+$', p_) and int(p_[1:]) < len(x[3]):
+                x = x[3][int(p_[1:])]
+            else:
+                return None
+        out.append(x)
+    return out
+
+
+def table_loop_complete(f, loc):
+    """the loop around call `loc` cannot be left early: after the call every path to a return passes the iterator's
+    next() again (so every row is visited)"""
+    t = f.at(loc)
+    if t.get('target') is None:
+        return False
+    nexts = [l for l, t2 in f.calls() if (t2.get('callee') or '') == 'std::iter::Iterator::next']
+    return bool(nexts) and f.forward_paths_hit([Loc(t['target'], 0)], f.returns(), blockers=nexts) is None
+
+
 def result_edges(f, call_term):
     """(ok_edge, err_edge) for the Result produced by a call, matched either directly
     (`match r {Ok..,Err..}` / `if let`) or through `?` (Try::branch -> ControlFlow). None if not found."""
@@ -1479,6 +1705,22 @@ def result_edges(f, call_term):
             for si in f.enum_switches('std::ops::ControlFlow'):
                 if si['place']['l'] == t['dest']['l'] and not si['place']['p']:
                     return f.variant_edge(si, 'Continue'), f.variant_edge(si, 'Break')
+    # `let ok = r.is_ok(); if ok {..}` / `if r.is_err() {..}`: the bool switch stands for the match
+    for c in bool_call_switches(f, ('std::result::Result::<T, E>::is_ok', 'std::result::Result::<T, E>::is_err')):
+        t = f.at(c['call_loc'])
+        a = t['args'][0] if t['args'] else {}
+        if 'l' not in a or a['p']:
+            continue
+        d = f.single_def(a['l'])
+        src = None
+        if a['l'] in aliases:
+            src = a['l']
+        elif d and d[1] == 'assign' and d[2]['k'] == 'ref' and not d[2]['place']['p'] and d[2]['place']['l'] in aliases:
+            src = d[2]['place']['l']
+        if src is None or c['true'] == c['false']:
+            continue
+        yes, no = (c['bb'], c['true']), (c['bb'], c['false'])
+        return (yes, no) if t['callee'].endswith('is_ok') else (no, yes)
     return None
 
 
